@@ -153,6 +153,88 @@ func (mi *muxInstance) search(req *httpprot.Request) (res *route)
   invariant[2] method-flag: methodMismatch <==> (exists i, j int :: inRange(mi, i, j) && before(i, j, idx$1, idx$2) && mthMiss(mi.rules[i].paths[j], mi.rules[i], req))
   invariant[2] cacheable-means-key-decides: cacheable ==> (forall i, j int :: inRange(mi, i, j) && before(i, j, idx$1, idx$2) ==> !hmp(mi, i, j, req.Request.Host, req.Request.Method, req.Request.URL.Path)) && noRuleFilterBefore(mi, idx$1, req.Request.Host)
 
+// ---- serveHTTP: what happens to one request (C01 dispatch, C07 body limit, C03 write-out) ----
+ghost var gRouteCode int     // status code of the route found by search (0: routed)
+ghost var gRoutePath int     // the path entry of the route
+ghost var gBackendOK bool    // whether the mux mapper knows the route's backend
+ghost var gBackend int       // the handler it returned
+ghost var gFetched bool      // whether the request body was fetched
+ghost var gFetchLimit int    // ... with which limit
+ghost var gFetchErr error    // ... and result
+ghost var gPathAtFetch string // request path when the body was fetched (after rewrite)
+ghost var gViaGlobalFilter bool
+ghost var gRewritten string   // request path right after MuxPath.rewrite
+ghost var gWrote bool        // write-out (deferred) ran
+ghost var gWroteHdr http.Header  // the writer's header map
+ghost var gWroteBody int     // bytes of the response body copied to the writer
+pred outStatusOf(r int) := ptr(r, "*httpprot.Response").Response.StatusCode
+
+func buildFailureResponse(ctx *context.Context, statusCode int) (resp *httpprot.Response)
+  flag allocates
+  requires ctx != nil
+  modifies outResp, outRespTyp
+  ensures resp != nil && fresh(resp) && resp.Response != nil && resp.Response.StatusCode == statusCode && outResp == ref(resp) && outRespTyp == typeTag("*httpprot.Response") && resp.Response.Header != nil && resp.stream == nil
+
+func appendXForwardedFor(r *httpprot.Request)
+  trusted
+  flag allocates
+  requires r != nil
+  modifies allof("map<string,[]string>#dom"), allof("map<string,[]string>#card"), allof("map<string,[]string>#val#arr"), allof("map<string,[]string>#val#len"), allof("map<string,[]string>#val#cap"), allof("elem<string>")
+
+func (mi *muxInstance) getGlobalFilter() (gf *globalfilter.GlobalFilter)
+  trusted
+  pure
+
+func (mi *muxInstance) serveHTTP(stdw http.ResponseWriter, stdr *http.Request)
+  flag allocates
+  flag frame=unchecked
+  requires wfMux(mi) && routeConstants() && cacheInv(mi) && chainsOK(mi)
+  requires mi.tracer != nil && mi.superSpec != nil && mi.superSpec.meta != nil && mi.spec != nil && mi.topN != nil && mi.muxMapper != nil
+  requires mi.httpStat != nil && ifaceVal(stdw) != 0
+  requires stdw != nil && stdr != nil && stdr.URL != nil && stdr.Body != nil && ifaceVal(stdr.Body) != 0 && rdRem[ifaceVal(stdr.Body)] >= 0
+  ensures the-response-is-written-out-on-every-path: gWrote
+  ensures no-route-answers-with-the-status-of-search: gRouteCode != 0 ==> old(handledCount) == handledCount && !gFetched && outStatusOf(outResp) == gRouteCode
+  ensures unknown-backend-is-503: gRouteCode == 0 && !gBackendOK ==> old(handledCount) == handledCount && !gFetched && outStatusOf(outResp) == 503
+  ensures body-limit-is-the-paths-else-the-servers: gFetched ==> gFetchLimit == (ptr(gRoutePath, "*MuxPath").clientMaxBodySize != 0 ? ptr(gRoutePath, "*MuxPath").clientMaxBodySize : mi.spec.ClientMaxBodySize)
+  ensures the-body-is-fetched-for-every-dispatched-request: gRouteCode == 0 && gBackendOK ==> gFetched
+  ensures too-large-body-is-413: gFetched && gFetchErr == httpprot.ErrRequestEntityTooLarge ==> old(handledCount) == handledCount && outStatusOf(outResp) == 413
+  ensures unreadable-body-is-400: gFetched && gFetchErr != nil && gFetchErr != httpprot.ErrRequestEntityTooLarge ==> old(handledCount) == handledCount && outStatusOf(outResp) == 400
+  ensures dispatched-to-the-routes-backend-exactly-once: gFetched && gFetchErr == nil ==> handledCount == old(handledCount) + 1 && handledBy == gBackend && gBackend == handlerNamed(ifaceVal(mi.muxMapper), ptr(gRoutePath, "*MuxPath").backend)
+  ensures the-path-is-rewritten-before-the-body-is-fetched-and-the-handler-runs: gFetched ==> gPathAtFetch == gRewritten
+  ensures without-a-rewrite-target-the-path-is-kept: gFetched && ptr(gRoutePath, "*MuxPath").rewriteTarget == "" ==> gPathAtFetch == old(stdr.URL.Path)
+  ghost at entry: gFetched := false
+  ghost at entry: gBackendOK := false
+  ghost at entry: gWrote := false
+  ghost at entry: gViaGlobalFilter := false
+  ghost at call[1] search: gRouteCode := res.code
+  ghost at call[1] search: gRoutePath := ref(res.path)
+  ghost at call[1] GetHandler: gBackendOK := ok
+  ghost at call[1] GetHandler: gBackend := ifaceVal(h)
+  ghost at call[1] rewrite: gRewritten := r.Request.URL.Path
+  ghost at call[1] FetchPayload: gFetched := true
+  ghost at call[1] FetchPayload: gFetchLimit := maxPayloadSize
+  ghost at call[1] FetchPayload: gFetchErr := err
+  ghost at call[1] FetchPayload: gPathAtFetch := r.Request.URL.Path
+  closure[1] ()
+    flag use=contract
+    flag allocates
+    flag frame=unchecked
+    requires ctx != nil && stdw != nil && ifaceVal(stdw) != 0 && mi != nil && mi.superSpec != nil && mi.superSpec.meta != nil && mi.httpStat != nil && topN != nil && body != nil && span != nil && req != nil && stdr != nil
+    requires http-responses-are-complete: outResp != 0 && outRespTyp == typeTag("*httpprot.Response") ==> allocated(ptr(outResp, "*httpprot.Response")) && ptr(outResp, "*httpprot.Response").Response != nil && ptr(outResp, "*httpprot.Response").Response.Header != nil
+    assume the-writers-header-map-is-its-own: forall x *http.Response :: ref(x.Header) != rwHdr(ifaceVal(stdw))
+    modifies gWrote, gWroteHdr, gWroteBody, wroteStatus, outResp, outRespTyp, rdRem, allof("map<string,[]string>#dom"), allof("map<string,[]string>#card"), allof("map<string,[]string>#val#arr"), allof("map<string,[]string>#val#len"), allof("map<string,[]string>#val#cap"), allof("elem<string>")
+    ensures gWrote
+    ensures a-missing-or-foreign-response-is-503: old(outResp) == 0 || old(outRespTyp) != typeTag("*httpprot.Response") ==> wroteStatus == 503
+    ensures otherwise-the-response-is-sent-as-it-is: old(outResp) != 0 && old(outRespTyp) == typeTag("*httpprot.Response") ==> outResp == old(outResp) && wroteStatus == outStatusOf(outResp)
+    ensures every-response-header-is-copied-to-the-writer: forall k string :: (k in ptr(outResp, "*httpprot.Response").Response.Header) ==> (k in gWroteHdr) && gWroteHdr[k] == ptr(outResp, "*httpprot.Response").Response.Header[k]
+    ensures a-buffered-body-is-written-in-full: ptr(outResp, "*httpprot.Response").stream == nil && len(ptr(outResp, "*httpprot.Response").payload) > 0 ==> gWroteBody == len(ptr(outResp, "*httpprot.Response").payload)
+    ghost at entry: gWrote := true
+    ghost at call[1] Header: gWroteHdr := h
+    ghost at call[1] Copy: gWroteBody := n
+    invariant[1] resp != nil && header != nil && ref(header) == rwHdr(ifaceVal(stdw)) && resp.Response != nil && resp.Response.Header != nil && ref(resp) == outResp
+    invariant[1] copied-so-far: forall j int :: 0 <= j && j < idx$1 ==> (keys$1[j] in header) && header[keys$1[j]] == resp.Response.Header[keys$1[j]]
+  end
+
 // ---- building a new routing generation (C11 / C12 / C05) ----
 pred chainLen(c *ipfilter.IPFilters) := c == nil ? 0 : len(c.filters)
 pred chainAllocated(c *ipfilter.IPFilters) := c != nil ==> allocated(c) && allocated(ref(c.filters)) && (forall q int :: 0 <= q && q < len(c.filters) ==> allocated(c.filters[q]))
